@@ -40,6 +40,11 @@ return arrayNew(d, arrayNew(datetimeYear(d), datetimeMonth(d), datetimeDay(d), d
 '''
 SCRIPT_GLOBAL_ARGS = parse_script('d = datetimeNew(a0, a1, a2, a3, a4, a5, a6)\n' + BODY)
 SCRIPT_WALL = parse_script(BODY)
+SCRIPT_AWARE = parse_script('''
+g = arrayNew(datetimeYear(d), datetimeMonth(d), datetimeDay(d), datetimeHour(d), datetimeMinute(d), datetimeSecond(d), datetimeMillisecond(d))
+back = datetimeNew(datetimeYear(d), datetimeMonth(d), datetimeDay(d), datetimeHour(d), datetimeMinute(d), datetimeSecond(d), datetimeMillisecond(d))
+return arrayNew(g, back - d, d - back)
+''')
 SCRIPT_ADD = parse_script('''
 d = datetimeNew(a0, a1, a2, a3, a4, a5, a6)
 if d == null:
@@ -146,6 +151,13 @@ def run_task(t):
         if t.get('u') is not None:
             out['offu_us'] = off_utc_at(t['u'])
         return out
+    if k == 'aware':
+        # a host-supplied AWARE datetime (instant u, fixed offset `off` minutes): every getter reads the instant normalised to the process zone
+        tz = datetime.timezone(datetime.timedelta(minutes=t['off']))
+        d = (EPOCH + t['us'] * US).replace(tzinfo=UTC).astimezone(tz)
+        res = execute_script(SCRIPT_AWARE, {'globals': {'d': d}})
+        loc = d.astimezone().replace(tzinfo=None)
+        return {'r': enc(res), 'local': [loc.year, loc.month, loc.day, loc.hour, loc.minute, loc.second, loc.microsecond // 1000]}
     if k == 'msget':
         fn = SCRIPT_FUNCTIONS['datetimeMillisecond']
         base = datetime.datetime(2024, 5, 17, 13, 59, 58)
